@@ -57,4 +57,122 @@ theorem read_never_unused (occs : List Occ) (d r : Occ) (hd : d ∈ unusedDecls 
   cases this
 #print axioms read_never_unused
 
+/-! ## Workspace level: "no file of the workspace defines a global of that name"
+
+A workspace is a list of files, each given by its binder output.  `wsDefines` is the set the third
+pass consults (every global assignment of every file, wherever it is nested); `wsUndefined` is the
+type-2 set of one file of that workspace with the built-in / configured-ignored names `ign`.  The
+theorems are the "exactly when" of the statement and its consequences for every workspace: the set
+does not depend on the order in which the files were scanned, a file that is added can only remove
+reports, and providing a definition anywhere removes exactly the reports of that name. -/
+
+/-- some file assigns a global called `n` -/
+def wsDefines (files : List (List Occ)) (n : Bytes) : Bool :=
+  files.any fun f => f.any fun w => w.isWrite && w.decl.isNone && w.name == n
+
+/-- type 2 in file `f` of workspace `files` with ignored names `ign` -/
+def wsUndefined (files : List (List Occ)) (ign : List Bytes) (f : List Occ) : List Occ :=
+  f.filter fun o => !o.isDecl && !o.isWrite && o.decl.isNone && !wsDefines files o.name && !ign.contains o.name
+
+/-- the statement's "exactly when" -/
+theorem wsUndefined_iff (files : List (List Occ)) (ign : List Bytes) (f : List Occ) (o : Occ) :
+    o ∈ wsUndefined files ign f ↔
+      o ∈ f ∧ o.isDecl = false ∧ o.isWrite = false ∧ o.decl = none ∧
+      (∀ g ∈ files, ∀ w ∈ g, ¬ (w.isWrite = true ∧ w.decl = none ∧ w.name = o.name)) ∧ o.name ∉ ign := by
+  unfold wsUndefined wsDefines
+  simp only [List.mem_filter, Bool.and_eq_true, Bool.not_eq_true', List.any_eq_false, List.any_eq_true,
+    Option.isNone_iff_eq_none, beq_iff_eq, List.contains_eq_mem, decide_eq_false_iff_not, not_exists, not_and]
+  grind
+#print axioms wsUndefined_iff
+
+/-- with a single file and nothing ignored this is the single-file set above -/
+theorem wsUndefined_single (f : List Occ) : wsUndefined [f] [] f = undefinedReads f := by
+  unfold wsUndefined undefinedReads wsDefines
+  simp
+#print axioms wsUndefined_single
+
+theorem wsDefines_perm {fs gs : List (List Occ)} (h : fs.Perm gs) (n : Bytes) : wsDefines fs n = wsDefines gs n := by
+  unfold wsDefines
+  induction h with
+  | nil => rfl
+  | cons x _ ih => simp only [List.any_cons, ih]
+  | swap x y l => simp only [List.any_cons]; cases (x.any _) <;> cases (y.any _) <;> rfl
+  | trans _ _ ih1 ih2 => exact ih1.trans ih2
+
+/-- the reports of a file do not depend on the order in which the workspace's files were scanned -/
+theorem wsUndefined_scan_order {fs gs : List (List Occ)} (h : fs.Perm gs) (ign : List Bytes) (f : List Occ) :
+    wsUndefined fs ign f = wsUndefined gs ign f := by
+  unfold wsUndefined
+  congr 1; funext o
+  rw [wsDefines_perm h]
+#print axioms wsUndefined_scan_order
+
+/-- adding a file never adds a report to another file … -/
+theorem wsUndefined_add_file (fs : List (List Occ)) (g : List Occ) (ign : List Bytes) (f : List Occ) (o : Occ)
+    (ho : o ∈ wsUndefined (g :: fs) ign f) : o ∈ wsUndefined fs ign f := by
+  rw [wsUndefined_iff] at ho ⊢
+  obtain ⟨a, b, c, d, e, i⟩ := ho
+  exact ⟨a, b, c, d, fun g' hg' => e g' (List.mem_cons_of_mem _ hg'), i⟩
+#print axioms wsUndefined_add_file
+
+/-- … and it removes exactly the reports of the names it assigns -/
+theorem wsUndefined_provider (fs : List (List Occ)) (g : List Occ) (ign : List Bytes) (f : List Occ) :
+    wsUndefined (g :: fs) ign f =
+      (wsUndefined fs ign f).filter fun o => !(g.any fun w => w.isWrite && w.decl.isNone && w.name == o.name) := by
+  unfold wsUndefined wsDefines
+  rw [List.filter_filter]
+  congr 1; funext o
+  simp only [List.any_cons, Bool.not_or]
+  cases o.isDecl <;> cases o.isWrite <;> cases o.decl.isNone <;> cases (ign.contains o.name) <;>
+    cases (g.any _) <;> cases (fs.any _) <;> rfl
+#print axioms wsUndefined_provider
+
+/-- a name that is ignored (built in, or listed in luahelper.json) is never reported, whatever the files say -/
+theorem ignored_never_undefined (files : List (List Occ)) (ign : List Bytes) (f : List Occ) (o : Occ)
+    (ho : o ∈ wsUndefined files ign f) : o.name ∉ ign := ((wsUndefined_iff files ign f o).1 ho).2.2.2.2.2
+#print axioms ignored_never_undefined
+
+/-- non-vacuity: two files, the second provides `g`; the read of `g` in the first is reported alone, not together -/
+example :
+    let rd : Occ := { name := [103], loc := ⟨1, 0, 1, 1⟩, decl := none }
+    let wr : Occ := { name := [103], loc := ⟨1, 0, 1, 1⟩, decl := none, isWrite := true }
+    wsUndefined [[rd]] [] [rd] = [rd] ∧ wsUndefined [[wr], [rd]] [] [rd] = [] := by
+  decide
+
+/-! ## "exactly when" for unused locals -/
+
+theorem unusedDecls_iff (occs : List Occ) (d : Occ) :
+    d ∈ unusedDecls occs ↔
+      d ∈ occs ∧ d.isDecl = true ∧ d.dk = "L" ∧ d.name ≠ [95] ∧
+      ∀ r ∈ occs, ¬ (r.isDecl = false ∧ r.isWrite = false ∧ r.decl = some d.loc) := by
+  unfold unusedDecls readsOf
+  simp only [List.mem_filter, Bool.and_eq_true, List.isEmpty_iff, List.filter_eq_nil_iff, bne_iff_ne, ne_eq,
+    beq_iff_eq, Bool.not_eq_true', not_and]
+  constructor
+  · rintro ⟨hd, ⟨⟨h1, h2⟩, h3⟩, h4⟩
+    refine ⟨hd, h1, h2, h3, ?_⟩
+    intro r hr a b c
+    exact h4 r hr ⟨a, b⟩ c
+  · rintro ⟨hd, h1, h2, h3, h4⟩
+    refine ⟨hd, ⟨⟨h1, h2⟩, h3⟩, ?_⟩
+    intro r hr hab c
+    exact h4 r hr hab.1 hab.2 c
+#print axioms unusedDecls_iff
+
+/-- a write alone does not make a local used (the assignment is what type 17 reports) -/
+theorem write_does_not_use (occs : List Occ) (d w : Occ) (hd : d ∈ unusedDecls occs) (hw : w.isWrite = true) :
+    d ∈ unusedDecls (occs ++ [w]) := by
+  rw [unusedDecls_iff] at hd ⊢
+  obtain ⟨a, b, c, e, h⟩ := hd
+  refine ⟨List.mem_append_left _ a, b, c, e, ?_⟩
+  intro r hr
+  rcases List.mem_append.1 hr with hr | hr
+  · exact h r hr
+  · simp only [List.mem_singleton] at hr
+    subst hr
+    intro hc
+    rw [hw] at hc
+    exact Bool.noConfusion hc.2.1
+#print axioms write_does_not_use
+
 end LuaHelper.C07
